@@ -42,7 +42,7 @@ class C18(Prop):
     ]
     rule = ("strict complete profiles with 1-7 alternatives (odd and even, ids from 0 or 1 or sparse), 1-4 distinct orders, random and planted "
             "(union of single-peaked blocks), every bound k from 1 to m; non-trivial = >= 2 orders and >= 3 alternatives")
-    budget = {"quick": 500, "thorough": 5000}
+    budget = {"quick": 500, "thorough": 20000}
     anchors = [("preflibtools.properties.subdomains.ordinal.singlepeaked.k_alternative_partition", n) for n in
                ("k_alt_partition_approx", "k_alternative_partition_brut_force", "dfs", "extend",
                 "singleton_pair_combinations")] + \
